@@ -162,10 +162,14 @@ def token_map(ctx, lexpr):
             r.anchor_missing(fp)
             return
         m = {}
-        for v in tok["variants"]:
-            if v["name"] in ("ListOpen", "VecOpen", "ByteVecOpen", "Quotation"):
+        tm = lex.TokenModel(lexpr)
+        for kind in tm.kinds():
+            if kind in ("ListOpen", "VecOpen", "ByteVecOpen", "Quotation"):
                 continue
-            tv = Adt("parse::Token", v["idx"], [Opq("payload")] * len(v["fields"]), v["name"])
+            tv = tm.make(kind)
+            if tv is None:
+                continue
+            v = {"name": kind}
 
             def hook(S, fn, bb, t, args, path, tv=tv):
                 nm = F.callee_names(t)
